@@ -70,6 +70,11 @@ class Binding:
             if obs['live'].get('mmode') != exp.get('mmode', exp['mode']) and not exp.get('gone'):
                 mm.append(('metadata accessmode', exp.get('mmode'), obs['live'].get('mmode')))
             return mm
+        if (src.get('cx') or {}).get('on') and macro.name in ('IA_Call', 'IA_CallBadAppend', 'SetItem') and obs_out != 'ok' \
+                and pre is not None and not disk.snapdiff(pre, disk.snapshot(sess.path)):
+            # operations inside an open context are outside the listed properties: a library that refuses them
+            # and changes nothing is as right as the modelled behaviour
+            return []
         return am.compare(p, exp, obs, obs_out, sess=sess, strict_out=(macro.name == 'M_Call'))
 
 
